@@ -80,6 +80,9 @@ struct InfoDef {
 const INFOS: &[InfoDef] = &[
     InfoDef { id: "NS", number: "1", ty: "Integer" },
     InfoDef { id: "DP", number: "1", ty: "Integer" },
+    // reserved key: the end position of the variant (drives rlen in BCF, the span used by the
+    // indexers and by region queries); always >= POS + len(REF) - 1 here
+    InfoDef { id: "END", number: "1", ty: "Integer" },
     InfoDef { id: "AF", number: "A", ty: "Float" },
     InfoDef { id: "DB", number: "0", ty: "Flag" },
     InfoDef { id: "AA", number: "1", ty: "String" },
@@ -232,7 +235,12 @@ pub fn generate(p: &VcfParams) -> VcfModel {
         };
         let mut info_parts: Vec<String> = Vec::new();
         for d in infos {
-            if rng.chance(1, 2) {
+            if d.id == "END" {
+                if rng.chance(1, 3) {
+                    let end = pos + ref_len - 1 + if rng.chance(1, 2) { rng.usize_below(2000) } else { 0 };
+                    info_parts.push(format!("END={end}"));
+                }
+            } else if rng.chance(1, 2) {
                 match gen_value(&mut rng, d, n_alt) {
                     None => info_parts.push(d.id.to_string()),
                     Some(v) => info_parts.push(format!("{}={}", d.id, v)),
